@@ -116,6 +116,24 @@ def ref(self):
     res = res.swaplevel().sort_index()
     return res
 ''', "transaction quantities are the first differences of the aggregated positions (first row restored, zeros dropped) and prices are the security prices plus bid/offer paid per unit traded"),
+    (BACKTEST, "Result", "get_weights", '''
+def ref(self, backtest=0, filter=None):
+    key = self._get_backtest(backtest)
+    if filter is not None:
+        data = self.backtests[key].weights[filter]
+    else:
+        data = self.backtests[key].weights
+    return data
+''', "the Result's component weights are those of the requested backtest (by position or by name), optionally restricted to the given columns"),
+    (BACKTEST, "Result", "get_security_weights", '''
+def ref(self, backtest=0, filter=None):
+    key = self._get_backtest(backtest)
+    if filter is not None:
+        data = self.backtests[key].security_weights[filter]
+    else:
+        data = self.backtests[key].security_weights
+    return data
+''', "the Result's security weights are those of the requested backtest (by position or by name), optionally restricted to the given columns"),
     (BACKTEST, "Result", "get_transactions", '''
 def ref(self, strategy_name=None):
     if strategy_name is None:
@@ -141,6 +159,26 @@ def ref(self, target):
     return True
 ''', "each transaction stamped in (previous date, now] is replayed on its security at its own price, updates deferred, then the root is refreshed"),
 ]
+
+
+# the same reports built on a sibling accessor that is itself checked against its own reference above
+ALT_REFS = {
+    ("StrategyBase", "get_transactions"): ['''
+def ref(self):
+    prc = pd.DataFrame({x.name: x.prices for x in self.securities}).unstack()
+    positions = self.positions
+    trades = positions.diff()
+    trades.iloc[0] = positions.iloc[0]
+    trades = trades[trades != 0].unstack().dropna()
+    if self._bidoffer_set:
+        bidoffer = pd.DataFrame({x.name: x.bidoffers_paid for x in self.securities}).unstack()
+        prc += bidoffer / trades
+    res = pd.DataFrame({"price": prc, "quantity": trades}).dropna(subset=["quantity"])
+    res.index.names = ["Security", "Date"]
+    res = res.swaplevel().sort_index()
+    return res
+'''],
+}
 
 
 def result_prices(chk):
@@ -195,6 +233,8 @@ def aggregation_on_collision(chk):
                             else_asg = [s_ for s_ in orelse if isinstance(s_, ast.Assign) and isinstance(s_.targets[0], ast.Subscript) and ast.unparse(s_.targets[0].slice) == left and adds(s_) is None]
                             if not body_aug and not else_asg:
                                 continue
+                            if any(isinstance(x_, ast.Raise) for s_ in body for x_ in ast.walk(s_)):
+                                continue  # a registry with unique names (a collision is an error), not an aggregation
                             n += 1
                             same = bool(body_aug) and bool(else_asg) and ast.unparse(body_aug[0]) == ast.unparse(else_asg[0].value)
                             chk.ob("C18.R2", same, f.module, f.qual, "aggregate-on-collision", "same-named securities are aggregated: add on a name collision, assign otherwise, the same series in both",
@@ -226,7 +266,8 @@ def run(chk):
                 "possibly empty table.")
     chk.assume("replay round-trip (a relation between two runs), ffn statistics and plotting are not decided")
     for mod, cls, name, src, what in REFS:
-        check_equiv(chk, "C18.R1" if cls != "ReplayTransactions" else "C18.R4", mod, cls, name, src, "report-formula", "%s.%s: %s" % (cls, name, what), no_inline=("update", "get_transactions"), limit=14)
+        check_equiv(chk, "C18.R1" if cls != "ReplayTransactions" else "C18.R4", mod, cls, name, src, "report-formula", "%s.%s: %s" % (cls, name, what), no_inline=("update", "get_transactions"), limit=14, ignore_refresh=True,
+                    alt_refs=ALT_REFS.get((cls, name), ()))
     result_prices(chk)
     aggregation_on_collision(chk)
     core_rules.accessor_rules(chk, "C18")
